@@ -276,7 +276,12 @@ impl Runner {
             }
         }
         // pairs
-        let np = self.rng.range(self.profile.n_pairs.0, self.profile.n_pairs.1);
+        let mut np = self.rng.range(self.profile.n_pairs.0, self.profile.n_pairs.1);
+        if self.profile.registry_heavy && self.profile.n_pairs.1 >= 40 && self.rng.chance(4, 100) {
+            // a registry well beyond every page-size constant of the listing (10, 30, 2 x 30)
+            np = self.rng.range(41, 95);
+            self.cov.reach("gen.big_registry");
+        }
         for _ in 0..np {
             let allow_lp = self.profile.registry_heavy;
             if let Some(set) = self.pick_new_set(allow_lp) {
